@@ -499,6 +499,10 @@ LUA_FIXED = [
     ("finalizer-overruns-budget", "local ctx = runtime.callcontext({kill={cpu=5000}}, function()\n"
      "  u = mkud('u', {__gc=function() log('gc-start') while true do end end})\nend)\nlog(ctx.status)\n", "",
      ["l:gc-start", "rel:u", "l:killed", "close"]),
+    # replacing the metatable by one without __gc (or by nil) un-marks the value: the old finaliser must not run (Lua 5.4)
+    ("metatable-replaced", "a = setmetatable({}, gcmt('a'))\nsetmetatable(a, {})\nb = setmetatable({}, gcmt('b'))\nsetmetatable(b, nil)\n"
+     "c = setmetatable({}, gcmt('c'))\nsetmetatable(c, gcmt('c2'))\nu = mkud('u', gcmt('gu'))\ndebug.setmetatable(u, {})\n", "",
+     ["close", "gc:c2", "rel:u"]),
     ("nested-ctx", "runtime.callcontext({kill={cpu=100000}}, function()\n a = setmetatable({}, gcmt('a'))\n runtime.callcontext({kill={cpu=10000}}, function() b = mkud('b', gcmt('b')) end)\n log('mid')\nend)\nlog('out')\n", "",
      ["gc:b", "rel:b", "l:mid", "gc:a", "l:out", "close"]),
 ]
